@@ -60,6 +60,12 @@ template<typename T> struct KllSk: QSkBase<T, ds::kll_sketch<T, typename Item<T>
   typedef ds::kll_sketch<T, typename Item<T>::less, sim::talloc<T>> S;
   typedef QSkBase<T, S> B; typedef typename B::SD SD; typedef typename B::L L; typedef typename B::A A;
   explicit KllSk(S&& s_): B(std::move(s_)) {}
+  // some batches arrive as a sketch of a smaller k (a producer configured more coarsely): the receiver's min_k drops below its k, which its images must carry
+  void feed(i64 start, i64 count, i64 pattern) override {
+    if ((pattern & 0x60) == 0x60 && count >= 16 && this->s->get_k() >= 16) { S tmp(static_cast<uint16_t>(std::max<int>(8, this->s->get_k() / 2)), L(), A(ARENA)); for (i64 j = 0; j < count; j++) tmp.update(Item<T>::make(feed_value(start, j, count, pattern))); this->s->merge(tmp); }
+    else B::feed(start, count, pattern);
+  }
+  std::string obs(bool det_only) const override { return B::obs(det_only) + " nre=" + d2s(this->s->get_normalized_rank_error(false)) + "/" + d2s(this->s->get_normalized_rank_error(true)); }
   const char* fam() const override { static std::string n = std::string("kll<") + NameOf<T>::s() + ">"; return n.c_str(); }
   Sk* clone() const override { return new KllSk(S(*this->s)); }
   Sk* move_out() override { return new KllSk(S(std::move(*this->s))); }
